@@ -79,11 +79,8 @@ class TagRegistry:
         self.category_map = {}
 
     def find_category(self, category_name: CategoryName) -> Optional[TagCategory]:
-        category = self.category_map.get(category_name, None)
-        if category:
-            return category
-        category_name = CategoryName(category_name.lower())
-        return self.category_map.get(category_name, None)
+        # Category names are case-insensitive: keys of the category_map are lower-cased
+        return self.category_map.get(CategoryName(category_name.lower()), None)
 
     def get_tag_factory(self, tag_name: QualifiedTagName) -> TagFactory:
         if tag_name.category is None:
@@ -129,7 +126,7 @@ class TagRegistry:
         if self.find_category(category_name) is not None:
             raise ValueError(f"Category '{category_name}' already registered")
         new_category = TagCategory(category_name)
-        self.category_map[category_name] = new_category
+        self.category_map[CategoryName(category_name.lower())] = new_category
         return new_category
 
 
